@@ -79,19 +79,58 @@ pub trait PathSyntax {
         }
     }
 
+    /// Read a number as per the SVG grammar: an optional sign, digits with an
+    /// optional fraction, and an optional exponent. A number ends where the next
+    /// one begins, so "10-20" and ".5.5" are each two numbers.
     fn read_number(&mut self) -> Result<f32> {
         self.check_not_end()?;
         let mut s = String::new();
+        if let Some(ch @ ('+' | '-')) = self.current() {
+            s.push(ch);
+            self.advance();
+        }
+        let mut seen_dot = false;
         while let Some(ch) = self.current() {
-            if ch.is_ascii_digit() || ch == '.' || ch == '-' {
+            if ch.is_ascii_digit() || (ch == '.' && !seen_dot) {
+                seen_dot |= ch == '.';
                 s.push(ch);
                 self.advance();
             } else {
                 break;
             }
         }
+        if let Some(ch @ ('e' | 'E')) = self.current() {
+            s.push(ch);
+            self.advance();
+            if let Some(ch @ ('+' | '-')) = self.current() {
+                s.push(ch);
+                self.advance();
+            }
+            while let Some(ch) = self.current() {
+                if ch.is_ascii_digit() {
+                    s.push(ch);
+                    self.advance();
+                } else {
+                    break;
+                }
+            }
+        }
         self.skip_wsp_comma();
         Ok(s.parse()?)
+    }
+
+    /// Read an arc flag: a single '0' or '1', which need not be separated from
+    /// what follows ("a1 1 0 00 1 1").
+    fn read_flag(&mut self) -> Result<f32> {
+        self.check_not_end()?;
+        let flag = match self.current() {
+            Some('0') => 0.,
+            Some('1') => 1.,
+            _ => return Err(SvgdxError::ParseError("Invalid arc flag".to_string())),
+        };
+        self.advance();
+        self.skip_wsp_comma();
+        Ok(flag)
     }
 
     fn read_coord(&mut self) -> Result<(f32, f32)> {
@@ -236,8 +275,8 @@ impl PathParser {
                 // "(rx ry x-axis-rotation large-arc-flag sweep-flag x y)+"
                 let _rxy = self.tokens.read_coord()?;
                 let _xar = self.tokens.read_number()?;
-                let _laf = self.tokens.read_number()?;
-                let _sf = self.tokens.read_number()?;
+                let _laf = self.tokens.read_flag()?;
+                let _sf = self.tokens.read_flag()?;
                 let xy = self.tokens.read_coord()?;
                 self.update_position(xy);
             }
@@ -245,8 +284,8 @@ impl PathParser {
                 // "(rx ry x-axis-rotation large-arc-flag sweep-flag x y)+"
                 let _rxy = self.tokens.read_coord()?;
                 let _xar = self.tokens.read_number()?;
-                let _laf = self.tokens.read_number()?;
-                let _sf = self.tokens.read_number()?;
+                let _laf = self.tokens.read_flag()?;
+                let _sf = self.tokens.read_flag()?;
                 let (dx, dy) = self.tokens.read_coord()?;
                 let (cpx, cpy) = self.position.unwrap_or((0., 0.));
                 self.update_position((cpx + dx, cpy + dy));
